@@ -4,6 +4,7 @@ import (
 	"fmt"
 	"go/ast"
 	"go/types"
+	"golang.org/x/tools/go/cfg"
 	"sort"
 	"strings"
 )
@@ -127,9 +128,9 @@ func checkC16(p *Prog, r *Report) {
 		}
 		r.check(srcOK(autoDS, "true") && srcOK(autoPS, "false"), "C16.T2", fi.Name, p.Pos(fi.Node), "source of the new ratio", "FindPeriod(true) -> dataShards, FindPeriod(false) -> parityShards", "the new ratio is not the detected data period / parity period")
 		need := map[string]bool{
-			tFld(recv, fShould).Key():                             false,
-			lt(tConst(0), tVar(autoDS)).Key():                     false,
-			lt(tConst(0), tVar(autoPS)).Key():                     false,
+			tFld(recv, fShould).Key():                              false,
+			lt(tConst(0), tVar(autoDS)).Key():                      false,
+			lt(tConst(0), tVar(autoPS)).Key():                      false,
 			lt(add(tVar(autoDS), tVar(autoPS)), tConst(256)).Key(): false,
 		}
 		diffKey := normTerm(mk("||", ne(tVar(autoDS), F("dataShards")), ne(tVar(autoPS), F("parityShards")))).Key()
@@ -150,8 +151,8 @@ func checkC16(p *Prog, r *Report) {
 				got := map[string]bool{}
 				var extra []string
 				sawDiff := false
-				for _, ct := range c.DominatingConds(pt) {
-					for _, a := range Conjuncts(ct) {
+				for _, ca := range c.DominatingCondsAt(pt) {
+					for _, a := range Conjuncts(ca.T) {
 						k := a.Key()
 						if _, ok := need[k]; ok {
 							got[k] = true
@@ -161,8 +162,9 @@ func checkC16(p *Prog, r *Report) {
 							sawDiff = true
 							continue
 						}
-						// earlier early-return guards of decode and the codec error test are not part of the region
-						if isEarlierGuard(p, a, in) || isErrNil(p, fi, a) {
+						// conditions tested before the tuning region is entered (decode's early
+						// returns) and the codec error test are not part of the region
+						if !insideRegion(c, ca.B, tFld(recv, fShould)) || isErrNil(p, fi, a) {
 							continue
 						}
 						extra = append(extra, pretty(k))
@@ -187,6 +189,8 @@ func checkC16(p *Prog, r *Report) {
 					// shape as in the constructor
 					if why := sameShapeAsCtor(p, ctor, fi, name, st, autoDS, autoPS); why != "" {
 						r.bad("C16.T2", fi.Name, p.Pos(st.Node), construct, why, "")
+					} else if why := usesNewRatio(p, c, fi, st, pt); why != "" {
+						r.bad("C16.T2", fi.Name, p.Pos(st.Node), construct, why, "")
 					} else {
 						r.ok("C16.T2", fi.Name, p.Pos(st.Node), construct, "inside the tuning region, unconditional there, constructor's shape")
 					}
@@ -202,14 +206,14 @@ func checkC16(p *Prog, r *Report) {
 					pt, _ := c.PointOf(call)
 					got := map[string]bool{}
 					sawDiff, extra := false, false
-					for _, ct := range c.DominatingConds(pt) {
-						for _, a := range Conjuncts(ct) {
+					for _, ca := range c.DominatingCondsAt(pt) {
+						for _, a := range Conjuncts(ca.T) {
 							k := a.Key()
 							if _, ok := need[k]; ok {
 								got[k] = true
 							} else if k == diffKey {
 								sawDiff = true
-							} else if !isEarlierGuard(p, a, in) && !isErrNil(p, fi, a) {
+							} else if insideRegion(c, ca.B, tFld(recv, fShould)) && !isErrNil(p, fi, a) {
 								extra = true
 							}
 						}
@@ -255,8 +259,9 @@ func checkC16(p *Prog, r *Report) {
 			}
 			n++
 			allowed := false
+			fsr := fa.AtNode(rs)
 			for _, ct := range c.DominatingConds(pt) {
-				e := exp(ct)
+				e := exp(fsr.Resolve(ct))
 				switch {
 				case e.Key() == exp(lt(mk("len", in), tConst(p.ConstInt("fecHeaderSize")))).Key():
 					allowed = true
@@ -285,13 +290,13 @@ func checkC16(p *Prog, r *Report) {
 			pt, _ := c.PointOf(st.Node)
 			var haveValid, extra bool
 			var extras []string
-			for _, ct := range c.DominatingConds(pt) {
-				for _, a := range Conjuncts(ct) {
+			for _, ca := range c.DominatingCondsAt(pt) {
+				for _, a := range Conjuncts(ca.T) {
 					k := a.Key()
 					switch {
 					case autoDS != nil && (k == lt(tConst(0), tVar(autoDS)).Key() || k == lt(tConst(0), tVar(autoPS)).Key() || k == lt(add(tVar(autoDS), tVar(autoPS)), tConst(256)).Key()):
 						haveValid = true
-					case k == tFld(recv, fShould).Key() || isEarlierGuard(p, a, in):
+					case k == tFld(recv, fShould).Key() || !insideRegion(c, ca.B, tFld(recv, fShould)):
 					default:
 						extra = true
 						extras = append(extras, pretty(k))
@@ -300,6 +305,8 @@ func checkC16(p *Prog, r *Report) {
 			}
 			if haveValid && !extra {
 				ok = true
+			} else if !haveValid {
+				why = fmt.Sprintf("shouldTune = false at %s is not restricted to 'a valid period pair was found': tuning is abandoned after a single attempt, decoding resumes with the old ratio, and a sender whose period does not fit the window at that moment is never adopted", p.Pos(st.Node))
 			} else {
 				why = fmt.Sprintf("shouldTune = false at %s is conditional on %v: when the detected pair equals the current ratio (or on that condition failing) the decoder stays suspended for ever", p.Pos(st.Node), extras)
 			}
@@ -319,8 +326,8 @@ func checkC16(p *Prog, r *Report) {
 			}
 			sites = append(sites, s.Call)
 			pt, _ := c.PointOf(s.Call)
-			bit := p.Term(s.Call.Args[0])
-			id := exp(p.Term(s.Call.Args[1]))
+			bit := p.resolveSingleDefs(fi, p.Term(s.Call.Args[0]))
+			id := exp(p.resolveSingleDefs(fi, p.Term(s.Call.Args[1])))
 			isData := exp(eq(flag, tConst(p.ConstInt("typeData"))))
 			var underData, underNotData bool
 			for _, ct := range c.DominatingConds(pt) {
@@ -353,6 +360,27 @@ func checkC16(p *Prog, r *Report) {
 			// any decision other than the length guard and the type test that selects the Sample call
 			if pt.B == c.Entry() || isSample(n, pt) {
 				return false
+			}
+			// only decisions count: returns and branch conditions (not plain local assignments)
+			if _, isRet := n.(*ast.ReturnStmt); !isRet {
+				isCond := pt.I == len(pt.B.Nodes)-1 && len(pt.B.Succs) == 2 && c.CondTerm(pt.B) != nil
+				if !isCond {
+					// a statement with effects on the decoder would also be a decision
+					if as, isAs := n.(*ast.AssignStmt); isAs {
+						local := true
+						for _, l := range as.Lhs {
+							if _, isId := ast.Unparen(l).(*ast.Ident); !isId {
+								local = false
+							}
+						}
+						if local {
+							return false
+						}
+					}
+					if _, isDecl := n.(*ast.DeclStmt); isDecl {
+						return false
+					}
+				}
 			}
 			switch x := n.(type) {
 			case *ast.ReturnStmt:
@@ -596,6 +624,68 @@ func sameShapeAsCtor(p *Prog, ctor, fi *FuncInfo, name string, st FieldStore, au
 	b := norm(fi, st, autoDS, autoPS)
 	if a != b {
 		return fmt.Sprintf("the retune computes %s as %s, the constructor as %s: after adopting the sender's ratio the decoder is not in the state a decoder constructed with that ratio would be in", name, pretty(b), pretty(a))
+	}
+	return ""
+}
+
+// insideRegion: block b lies inside the region guarded by `flag` (it is
+// dominated by the true successor of a block that branches on flag).
+func insideRegion(c *CFG, b *cfg.Block, flag *Term) bool {
+	for _, h := range c.live {
+		ct := c.CondTerm(h)
+		if ct == nil || len(h.Succs) != 2 || ct.Key() != flag.Key() {
+			continue
+		}
+		if c.BlockDominates(h.Succs[0], b) {
+			return true
+		}
+	}
+	return false
+}
+
+// usesNewRatio: a retune store that reads dataShards/parityShards/shardSize of the
+// decoder must come after the retune's own store to that field, otherwise it is
+// computed from the old ratio.
+func usesNewRatio(p *Prog, c *CFG, fi *FuncInfo, st FieldStore, pt Point) string {
+	if st.Rhs == nil {
+		return ""
+	}
+	rhs := st.Rhs
+	// the codec is stored through a local: look at the local's definition
+	t := p.Term(rhs)
+	terms := []*Term{t}
+	if t.Op == "var" {
+		for _, as := range p.Assignments(fi, t.Obj.(*types.Var)) {
+			if as.Rhs != nil {
+				terms = append(terms, p.Term(as.Rhs))
+			} else if asn, ok := as.Node.(*ast.AssignStmt); ok && len(asn.Rhs) == 1 {
+				terms = append(terms, p.Term(asn.Rhs[0]))
+			}
+		}
+	}
+	for _, name := range []string{"dataShards", "parityShards", "shardSize"} {
+		f := p.Field("fecDecoder", name)
+		used := false
+		for _, tt := range terms {
+			if termHasField(tt, f) {
+				used = true
+			}
+		}
+		if !used {
+			continue
+		}
+		before := false
+		for _, s2 := range p.FieldStores(f) {
+			if s2.Fn != fi {
+				continue
+			}
+			if q, ok := c.PointOf(s2.Node); ok && c.Dominates(q, pt) && q != pt {
+				before = true
+			}
+		}
+		if !before {
+			return "the value is computed from fecDecoder." + name + " before the retune has stored the new " + name + ": it belongs to the old ratio (e.g. a wrap point paws of the old group size refuses genuine packets of the new one near the id wrap)"
+		}
 	}
 	return ""
 }
